@@ -24,8 +24,9 @@ public:
     Client::ICallback *_callback;
     Buffer _sendBuffer;
     bool _suspended;
+    bool _removed;
     Server::Private& _p;
-    ClientImpl(Server::Private& p) : _callback(nullptr), _suspended(false), _p(p) {}
+    ClientImpl(Server::Private& p) : _callback(nullptr), _suspended(false), _removed(false), _p(p) {}
     bool write(const byte *data, usize size, usize *postponed = 0);
     bool read(byte *buffer, usize maxSize, usize &size);
     void suspend();
@@ -202,7 +203,10 @@ void Server::Private::remove(ClientImpl &client)
   if (client._callback)
     deleteClient(client);
   else
+  { // removed from inside onAccepted/onConnected: the caller still uses the client, it deletes it afterwards
+    client._removed = true;
     _closingClients.append(&client);
+  }
 }
 
 void Server::Private::deleteClient(ClientImpl& client)
@@ -265,7 +269,7 @@ void Server::Private::run()
     {
       ClientImpl &client = *_closingClients.front();
       _closingClients.removeFront();
-      if (client._callback)
+      if (client._callback && !client._removed)
         client._callback->onClosed();
       else
         deleteClient(client);
@@ -367,7 +371,7 @@ void Server::Private::run()
       client.swap(clientSocket);
       _sockets.set(client, Socket::Poll::readFlag);
       client._callback = listener.callback->onAccepted(*(Client *)&client, ip, port);
-      if (!client._callback)
+      if (!client._callback || client._removed)
         deleteClient(client);
       continue;
     }
@@ -394,7 +398,7 @@ void Server::Private::run()
           client.swap(establisher);
           _sockets.set(client, Socket::Poll::readFlag);
           client._callback = establisher.callback.onConnected(*(Client *)&client);
-          if (!client._callback)
+          if (!client._callback || client._removed)
             deleteClient(client);
         }
       }
